@@ -6,8 +6,8 @@ import SdcModel.Generated.CopyTable
 Property theorems only. Model: `SdcModel/ObjGraph.lean` (identity trees, universe-wide in-place updates); what every
 class × property slot does on construction / absent element / `__get__` / copy is the table
 `Generated/CopyTable.lean`, regenerated from the running code on every run. All theorems hold for *every* table that
-satisfies the decidable predicate `tableOK` ("no descriptor hands out a class-level object; `deepcopy`, `mk_copy` and
-`update_from_other_container` of containers share nothing with their source"), every list of class defaults `D` and every op list (`construct | parse (any absent set) | copy | deepcopy | setKid | append | update`).
+satisfies the decidable predicate `tableOK` ("no descriptor hands out a class-level object; `deepcopy` shares nothing
+with its source"), every list of class defaults `D` and every op list (`construct | parse (any absent set) | copy | deepcopy | setKid | append | update`).
 -/
 namespace Sdc.C12
 open Sdc.ObjGraph
@@ -44,23 +44,24 @@ theorem other_instances_unchanged (T : Table) (hT : tableOK T = true) (D : List 
     ∃ b' : Inst, s'.insts[k]? = some b' ∧ b'.tree = b.tree ∧ b'.cls = b.cls :=
   (step_pack hT (run_inv hT ops _ (init_inv D)) h).2 k b hb hind
 
-/-- `mk_copy` of a container (any class the table marks `isContainer`): the copy has the value of its source, starts
-    a group of its own and shares no mutable object with the source -/
-theorem mk_copy_independent (T : Table) (hT : tableOK T = true) (D : List Tree) (ops : List Op) (i : Nat) (a : Inst)
-    (ce : ClsE) (hi : (run T (init D) ops).insts[i]? = some a) (hce : T[a.cls]? = some ce)
-    (hc : ce.isContainer = true) (s' : St) (h : step T (run T (init D) ops) (.copy i) = some s') :
+/-- where the table says that `mk_copy` / `copy.copy` of a class is deep (`copyDeep`), the copy has the value of its
+    source, starts a group of its own and shares no mutable object with the source. (On this tree `mk_copy` is shallow
+    by design; the provider makes its private copies in `mdib/transactions.py`.) -/
+theorem deep_copy_independent (T : Table) (hT : tableOK T = true) (D : List Tree) (ops : List Op) (i : Nat) (a : Inst)
+    (hi : (run T (init D) ops).insts[i]? = some a) (hd : clsFlag T a.cls (·.copyDeep) = true) (s' : St)
+    (h : step T (run T (init D) ops) (.copy i) = some s') :
     ∃ e : Inst, s'.insts = (run T (init D) ops).insts ++ [e] ∧ e.cls = a.cls ∧
       e.grp = (run T (init D) ops).insts.length ∧ e.tree.strip = a.tree.strip ∧ Disjoint e.tree.ids a.tree.ids :=
-  step_copy_deep (run_inv hT ops _ (init_inv D)) hi (clsFlag_of_ok hT hce hc).1 h
+  step_copy_deep (run_inv hT ops _ (init_inv D)) hi hd h
 
-/-- `update_from_other_container` of a container links nothing: every instance keeps its group, so `self` and `other`
-    (and everything else that was independent before) still have disjoint mutable objects afterwards
-    (`instances_disjoint` applied to the history extended by the update) -/
-theorem update_keeps_groups (T : Table) (hT : tableOK T = true) (D : List Tree) (ops : List Op) (i j : Nat)
-    (skip : List Nat) (a : Inst) (ce : ClsE) (hi : (run T (init D) ops).insts[i]? = some a) (hce : T[a.cls]? = some ce)
-    (hc : ce.isContainer = true) (s' : St) (h : step T (run T (init D) ops) (.update i j skip) = some s') :
+/-- where the table says that `update_from_other_container` copies deeply (`updDeep`) it links nothing: every instance
+    keeps its group, so `self` and `other` still have disjoint mutable objects afterwards -/
+theorem deep_update_keeps_groups (T : Table) (hT : tableOK T = true) (D : List Tree) (ops : List Op) (i j : Nat)
+    (skip : List Nat) (a : Inst) (hi : (run T (init D) ops).insts[i]? = some a)
+    (hd : clsFlag T a.cls (·.updDeep) = true) (s' : St)
+    (h : step T (run T (init D) ops) (.update i j skip) = some s') :
     ∀ (m : Nat) (c : Inst), (run T (init D) ops).insts[m]? = some c → ∃ c' : Inst, s'.insts[m]? = some c' ∧ c'.grp = c.grp :=
-  step_update_deep (run_inv hT ops _ (init_inv D)) hi (clsFlag_of_ok hT hce hc).2 h
+  step_update_deep (run_inv hT ops _ (init_inv D)) hi hd h
 
 /-- instances created by `cls()`, `from_node` and `deepcopy` start a group of their own -/
 theorem new_instance_new_group (T : Table) (hT : tableOK T = true) (D : List Tree) (ops : List Op) (c : Nat) (s' : St)
@@ -91,9 +92,9 @@ theorem generated_defaults_stable (ops : List Op) (c : Nat) :
 def exD : List Tree := [.imm 0, .obj 1 [.imm 7], .imm 0]
 def exT (absent : Mode) : Table :=
   [⟨[⟨0, .imm 0, .imm 0, .plain⟩], false, true, false, false⟩,
-   ⟨[⟨1, .copyDefault, absent, .plain⟩, ⟨2, .fresh (.obj 0 []), .fresh (.obj 0 []), .lazy⟩], true, true, true, true⟩]
+   ⟨[⟨1, .copyDefault, absent, .plain⟩, ⟨2, .fresh (.obj 0 []), .fresh (.obj 0 []), .lazy⟩], false, true, false, true⟩]
 
-/-- parse with member 0 absent, write through the parsed instance, `mk_copy`, update, construct again -/
+/-- parse with member 0 absent, write through the parsed instance, shallow `mk_copy`, update, construct again -/
 def exOps : List Op :=
   [.parse 1 (.obj 1 [.absent, .list []]), .setKid 0 [0] 0 (.imm 9), .copy 0, .construct 1, .update 2 0 [],
    .append 1 [1] (.imm 3)]
@@ -101,7 +102,7 @@ def exOps : List Op :=
 example : tableOK (exT .copyDefault) = true := by decide
 example : constructVal (exT .copyDefault) (run (exT .copyDefault) (init exD) exOps) 1
     = some (.obj 0 [.obj 0 [.imm 7], .obj 0 []]) := by decide
-example : ((run (exT .copyDefault) (init exD) exOps).insts.map (·.grp)) = [0, 1, 2] := by decide
+example : ((run (exT .copyDefault) (init exD) exOps).insts.map (·.grp)) = [0, 0, 0] := by decide
 
 /-- what the pinned tree did (`get_py_value_from_node` returned the default itself): the same history changes the
     value of every later `cls()`; so `tableOK` cannot be dropped -/
